@@ -160,6 +160,20 @@ def generate(rng):
       programs[pid] = {"module": "main", "src": cp[1], "deps": [],
                        "exports": {}, "corpus": cp[0]}
       mains.append(pid)
+  if rng.random() < 0.2:
+    # a BIG module (hundreds of small functions): whatever a process
+    # accumulates per analysed function, this one accumulates a lot of
+    n_f = rng.choice([120, 200, 320])
+    lines = ["import os"]
+    for j in range(n_f):
+      lines.append("def g%d(a, b=%d):" % (j, j % 7))
+      lines.append("  if a:")
+      lines.append("    return [a, b]")
+      lines.append("  return %s" % rng.choice(["b", "(a, b)", "'s'", "None"]))
+    lines.append("r = [g0(1), g1('s'), g2(None)]")
+    programs["b0"] = {"module": "main", "src": "\n".join(lines) + "\n", "deps": [],
+                      "exports": {}, "bulk": n_f}
+    mains.append("b0")
   if rng.random() < 0.3:
     # a source that does not compile: the analysis ends early with a
     # python-compiler-error; what follows it in a process must not notice
@@ -177,7 +191,9 @@ def generate(rng):
   pool = []
   opt_variants = [{"quick": True}, {}, {"quick": True, "analyze_annotated": True},
                   {"quick": True, "strict_none_binding": True},
-                  {"quick": True, "protocols": True}]
+                  {"quick": True, "protocols": True},
+                  {"quick": True, "enable_only": "name-error,attribute-error"},
+                  {"quick": True, "disable": "attribute-error,import-error"}]
   for _ in range(rng.randrange(3, 8)):
     prog = rng.choice(mains + ups[:1]) if rng.random() < 0.9 or not ups else rng.choice(ups)
     form = rng.choice(["text", "text", "pickle"])
